@@ -4,7 +4,7 @@ expect exit 1 with a VIOLATION line, restore /repo.  Evidence of these runs goes
 import json, os, subprocess, sys
 ROOT = os.path.dirname(os.path.dirname(os.path.abspath(__file__)))
 env = dict(os.environ, VERIF_EVIDENCE_DIR=os.path.join(ROOT, 'work', 'seed-evidence'))
-names = sys.argv[1:] or sorted(os.listdir(os.path.join(ROOT, 'seeded')))
+names = sys.argv[1:] or sorted(n for n in os.listdir(os.path.join(ROOT, 'seeded')) if not n.startswith('_'))
 miss = []
 for n in names:
     d = os.path.join(ROOT, 'seeded', n)
